@@ -69,6 +69,12 @@ func init() {
 			"the denominator is the number of validator slots of the context, key-less slots included (they can never sign)",
 			"a proof is RLP[[sig|null, ...]] (harness encoder lib/sig/rlp.go; validated by the positive cases and by the real Bytes() path)",
 		},
+		TimeoutSec: func(t string) int {
+			if t == ev.Thorough {
+				return 3600
+			}
+			return 600
+		},
 		Run: run,
 	})
 }
